@@ -545,6 +545,89 @@ theorem wireLength_none_loaded (sqrt : α → α) {t : YVal α} {n : Netlist α}
     simpa using this
 
 
+/-- the centre the DOCUMENT gives a module entry: the area-weighted centroid of the rectangles its `rectangles:` entries
+    describe (whatever `center:` says), else the point its `center:` denotes. -/
+def DocCenter (info : List (YVal α × YVal α)) (c : α × α) : Prop :=
+  (∃ rv es rs0, HasAttr info "rectangles" rv ∧ rectEntries rv = some es ∧ List.Forall₂ EntryRect es rs0 ∧
+      c = ((rs0.map fun r => r.area * r.cx.val).sum / (rs0.map NRect.area).sum,
+           (rs0.map fun r => r.area * r.cy.val).sum / (rs0.map NRect.area).sum)) ∨
+  (NoAttr info "rectangles" ∧ ∃ cv, HasAttr info "center" cv ∧ CenterOfDoc cv c)
+
+/-- the centre of a loaded module is the centre its document entry gives (`DocCenter`). -/
+theorem center_of_document {t : YVal α} {n : Netlist α} {mods : List (YVal α × YVal α)} (hd : HasModules t mods)
+    (h : parseNetlist stog εA t = .ok n) {m : NL.Mod α} (hm : m ∈ n.modules) {c : α × α} (hc : m.center = some c) :
+    ∃ info, (YVal.str m.name, YVal.map info) ∈ mods ∧ DocCenter info c := by
+  obtain ⟨e, he, info, rfl, hdoc⟩ := forall₂_mem_right (modules_of_document hd h) hm
+  refine ⟨info, he, ?_⟩
+  by_cases hr : ∃ rv, HasAttr info "rectangles" rv
+  · obtain ⟨rv, hrv⟩ := hr
+    obtain ⟨es, rs0, hes, hF, _, _, hcen, _⟩ := hdoc.rects rv hrv
+    rw [hc] at hcen
+    exact Or.inl ⟨rv, es, rs0, hrv, hes, hF, Option.some.inj hcen⟩
+  · have hno : NoAttr info "rectangles" := fun v hv => hr ⟨v, hv⟩
+    obtain ⟨_, h1, h2⟩ := hdoc.no_rects hno
+    refine Or.inr ⟨hno, ?_⟩
+    by_cases hcv : ∃ cv, HasAttr info "center" cv
+    · obtain ⟨cv, hcv⟩ := hcv
+      obtain ⟨c', hc', hmc⟩ := h1 cv hcv
+      rw [hc] at hmc
+      cases hmc
+      exact ⟨cv, hcv, hc'⟩
+    · have := h2 (fun v hv => hcv ⟨v, hv⟩)
+      rw [hc] at this; cases this
+
+/-- a module WITHOUT rectangles keeps the centre of its document entry: the point `center:` denotes, none when the
+    entry has no `center:` (this is the content `center_def_no_rects` only hints at). -/
+theorem center_def_no_rects_of_document {t : YVal α} {n : Netlist α} {mods : List (YVal α × YVal α)}
+    (hd : HasModules t mods) (h : parseNetlist stog εA t = .ok n) :
+    List.Forall₂ (fun (e : YVal α × YVal α) (m : NL.Mod α) => ∃ info, e = (YVal.str m.name, YVal.map info) ∧
+      (NoAttr info "rectangles" → m.rects = [] ∧
+        (∀ cv, HasAttr info "center" cv → ∃ c, CenterOfDoc cv c ∧ m.center = some c) ∧
+        (NoAttr info "center" → m.center = none))) mods n.modules :=
+  (modules_of_document hd h).imp fun _ _ ⟨info, he, hdoc⟩ => ⟨info, he, hdoc.no_rects⟩
+
+/-- WIRE LENGTH at the level of the DOCUMENT: the sum over the nets of weight × Σ over the members of the distance from
+    the member's centre to the mean of the members' centres, where the centre of a member is the one the `Modules` entry
+    of that name gives (`DocCenter`: centroid of its rectangle entries, else its `center:`); `nets_of_document` ties the
+    nets (members, weight) to the `Nets` entries. -/
+theorem wireLength_of_document (sqrt : α → α) {t : YVal α} {n : Netlist α} {mods : List (YVal α × YVal α)}
+    (hd : HasModules t mods) (h : parseNetlist stog εA t = .ok n) (w : α) (hw : n.wireLength sqrt = some w) :
+    ∃ css : List (List (α × α)),
+      List.Forall₂ (fun (e : Net α) (cs : List (α × α)) =>
+        List.Forall₂ (fun x c => ∃ info, (YVal.str x, YVal.map info) ∈ mods ∧ DocCenter info c) e.members cs ∧
+        2 ≤ cs.length ∧ 0 < e.weight) n.nets css ∧
+      w = ((n.nets.zip css).map fun p => p.1.weight * (p.2.map fun c =>
+            sqrt (((p.2.map (·.1)).sum / (p.2.length : α) - c.1) ^ 2 +
+                  ((p.2.map (·.2)).sum / (p.2.length : α) - c.2) ^ 2)).sum).sum := by
+  obtain ⟨hsum, hall⟩ := wireLength_loaded sqrt h w hw
+  refine ⟨n.nets.map (netCenters n), forall₂_self_map _ _ ?_, ?_⟩
+  · intro e he
+    obtain ⟨hF, h2, hpos⟩ := hall e he
+    refine ⟨hF.imp ?_, h2, hpos⟩
+    rintro x c ⟨m, hm, rfl, hc⟩
+    exact center_of_document hd h hm hc
+  · rw [zip_self_map]; exact hsum
+
+/-- the names of the `Modules` entries are distinct: "the entry of that name" is one entry. -/
+theorem module_entry_unique {t : YVal α} {n : Netlist α} {mods : List (YVal α × YVal α)} (hd : HasModules t mods)
+    (h : parseNetlist stog εA t = .ok n) : (mods.map (·.1)).Nodup := by
+  have hF := modules_of_document hd h
+  have hn := names_nodup h
+  have key : ∀ (l1 : List (YVal α × YVal α)) (l2 : List (NL.Mod α)),
+      List.Forall₂ (fun (e : YVal α × YVal α) (m : NL.Mod α) => ∃ info, e = (YVal.str m.name, YVal.map info) ∧
+        ModuleOfDoc stog info m) l1 l2 → l1.map (·.1) = l2.map fun m => YVal.str m.name := by
+    intro l1 l2 hF
+    induction hF with
+    | nil => rfl
+    | @cons e m _ _ hem _ ih =>
+      obtain ⟨info, rfl, _⟩ := hem
+      simp only [List.map_cons, ih]
+  rw [key _ _ hF]
+  have h2 : ((n.modules.map (·.name)).map (YVal.str (α := α))).Nodup :=
+    hn.map (fun a b hab => by injection hab)
+  rw [List.map_map] at h2
+  exact h2
+
 /-! ## Part 2: ill-formed designs are rejected
 
 `HasModules t mods`: `t` is a root dictionary with `Modules: mods` (a dictionary); `HasNets t nets`: … with `Nets: nets`
@@ -890,6 +973,74 @@ theorem reject_invalid_region_name {t : YVal α} (h : InvalidRegionName t) :
     rw [hvalid] at hbad
     cases hbad
 
+/-- (9b) a rectangle `[x, y, w, h, region]` whose region is not an identifier (or not a string), anywhere in a
+    `rectangles` attribute. -/
+def InvalidRectRegionName (t : YVal α) : Prop :=
+  ∃ mods, HasModules t mods ∧ ∃ k info rv es x y w h reg, (k, YVal.map info) ∈ mods ∧
+    HasAttr info "rectangles" rv ∧ rectEntries rv = some es ∧ YVal.seq [x, y, w, h, reg] ∈ es ∧ reg.validIdent = false
+
+theorem reject_invalid_rect_region_name {t : YVal α} (h : InvalidRectRegionName t) :
+    ∃ err, parseNetlist stog εA t = .error err := by
+  obtain ⟨mods, hd, k, info, rv, es, x, y, w, hh, reg, hmem, hattr, hes, hent, hbad⟩ := h
+  refine reject_module' hd hmem ?_
+  intro m hm
+  obtain ⟨kvs, ps, s, rects, hk, hnd, hp, hc, hr, _⟩ := parseModule_info hm
+  obtain ⟨_, _, _, c4, _⟩ := params_of_doc hk hnd hp
+  have hsome := c4 rv hattr
+  have hpr : parseRects s.fixed s.hard rv = .ok rects := by
+    rcases hr with ⟨h1, _⟩ | ⟨v, h1, h2⟩
+    · rw [hsome] at h1; cases h1
+    · rw [hsome] at h1; cases h1; exact h2
+  obtain ⟨es2, hes2, hme, _⟩ := parseRects_ok hpr
+  rw [hes] at hes2; cases hes2
+  obtain ⟨q, _, hq⟩ := mapE_ok_mem hme hent
+  obtain ⟨hok, hform⟩ := parseRect_ok hq
+  rcases hform with ⟨hf, _⟩ | hf
+  · have := congrArg (fun v => match v with | YVal.seq l => l.length | _ => 0) hf
+    simp at this
+  · have hreg : reg = YVal.str q.region := by
+      injection hf with hf; injection hf with _ hf; injection hf with _ hf; injection hf with _ hf
+      injection hf with _ hf; injection hf with h5 _
+    rw [hreg] at hbad
+    simp only [YVal.validIdent] at hbad
+    rw [hok.region_ok] at hbad
+    cases hbad
+
+/-- (9c) a rectangle of a module declared hard (not a terminal) that names a region at all: the rectangles of hard
+    modules live in the ground region and must be written `[x, y, w, h]`. -/
+def RegionOnHardRectangle (t : YVal α) : Prop :=
+  ∃ mods, HasModules t mods ∧ ∃ k info rv es x y w h reg, (k, YVal.map info) ∈ mods ∧
+    HasAttr info "rectangles" rv ∧ rectEntries rv = some es ∧ YVal.seq [x, y, w, h, reg] ∈ es ∧
+    DeclaredHard info ∧ (∀ v, HasAttr info "terminal" v → v = .bool false)
+
+theorem reject_region_on_hard_rectangle {t : YVal α} (h : RegionOnHardRectangle t) :
+    ∃ err, parseNetlist stog εA t = .error err := by
+  obtain ⟨mods, hd, k, info, rv, es, x, y, w, hh, reg, hmem, hattr, hes, hent, hdecl, hnot⟩ := h
+  refine reject_module' hd hmem ?_
+  intro m hm
+  obtain ⟨kvs, ps, s, rects, hk, hnd, hp, hc, hr, _⟩ := parseModule_info hm
+  obtain ⟨hhard, _⟩ := declared_hard_nonterminal hk hnd hp hc hdecl hnot
+  obtain ⟨_, _, _, c4, _⟩ := params_of_doc hk hnd hp
+  have hsome := c4 rv hattr
+  have hpr : parseRects s.fixed s.hard rv = .ok rects := by
+    rcases hr with ⟨h1, _⟩ | ⟨v, h1, h2⟩
+    · rw [hsome] at h1; cases h1
+    · rw [hsome] at h1; cases h1; exact h2
+  obtain ⟨es2, hes2, hme, _⟩ := parseRects_ok hpr
+  rw [hes] at hes2; cases hes2
+  obtain ⟨q, _, hq⟩ := mapE_ok_mem hme hent
+  obtain ⟨hok, hform⟩ := parseRect_ok hq
+  rcases hform with ⟨hf, _⟩ | hf
+  · have := congrArg (fun v => match v with | YVal.seq l => l.length | _ => 0) hf
+    simp at this
+  · -- a five-element entry is only accepted for a rectangle that is neither fixed nor hard
+    simp only [parseRect, hhard, Bool.or_true, Bool.not_true, Bool.and_false] at hq
+    split at hq
+    · split at hq
+      · split at hq <;> simp at hq
+      · simp at hq
+    · simp at hq
+
 /-- (10) a net with a single pin: `[a]`, or `[a, w]` with `w` a number (the weight is not a pin). -/
 def OnePinNet (t : YVal α) : Prop :=
   ∃ nets, HasNets t nets ∧ ∃ y, y ∈ nets ∧
@@ -1144,6 +1295,105 @@ example : ∃ (n : Netlist Rat), LD modsOnly = .ok n ∧ n.nets = [] := by
   have hok : isOkB (LD modsOnly) = true := by decide +kernel
   obtain ⟨n, hn⟩ := ok_of_isOkB hok
   exact ⟨n, hn, (missing_keys hn).1 ⟨_, rfl, by intro v h; simp [mA] at h⟩⟩
+
+
+/-! the two new defect classes have members -/
+example : InvalidRectRegionName (doc [(.str "A", .map [(.str "area", .int 1),
+    (.str "rectangles", .seq [.seq [.int 1, .int 1, .int 2, .int 2, .str "L1-dsp"]])])] []) :=
+  ⟨_, hasModules_doc _ _, _, _, _, _, _, _, _, _, .str "L1-dsp", List.mem_cons_self,
+    List.mem_cons_of_mem _ List.mem_cons_self, rfl, List.mem_cons_self, by decide⟩
+
+example : RegionOnHardRectangle (doc [(.str "A", .map [(.str "hard", .bool true),
+    (.str "rectangles", .seq [.seq [.int 1, .int 1, .int 2, .int 2, .str "_"]])])] []) :=
+  ⟨_, hasModules_doc _ _, _, _, _, _, _, _, _, _, .str "_", List.mem_cons_self,
+    List.mem_cons_of_mem _ List.mem_cons_self, rfl, List.mem_cons_self, Or.inr List.mem_cons_self,
+    by intro v h; simp [HasAttr] at h⟩
+
+/-! fixedRectangles_of_document applied: five chunks; only the chunk of `F` (`fixed: true`) survives the filter -/
+example : ∃ (n : Netlist Rat) (rss : List (List (NRect Rat))), LD good = .ok n ∧
+    loadRectangles (stogC06 e3 e3) e3 good = .ok rss.flatten ∧ fixedOf rss.flatten = (rss.map fixedOf).flatten ∧
+    ∃ a s h f t, rss = [a, s, h, f, t] ∧ fixedOf a = [] ∧ fixedOf s = [] ∧ fixedOf h = [] ∧ fixedOf f = f ∧ fixedOf t = [] := by
+  obtain ⟨n, hn⟩ := ok_of_isOkB good_ok
+  obtain ⟨rss, hl, hflat, hF⟩ := fixedRectangles_of_document (hasModules_doc _ _) hn
+  refine ⟨n, rss, hn, hl, hflat, ?_⟩
+  cases hF with
+  | cons h1 hF => cases hF with
+    | cons h2 hF => cases hF with
+      | cons h3 hF => cases hF with
+        | cons h4 hF => cases hF with
+          | cons h5 hF =>
+            cases hF
+            rename_i a s h f t
+            refine ⟨a, s, h, f, t, rfl, ?_, ?_, ?_, ?_, ?_⟩
+            · obtain ⟨k, info, he, _, hno⟩ := h1
+              have : info = [(.str "area", .map [(.str "_", .int 3), (.str "dsp", .float 2)])] := by
+                simp [mA] at he; exact he.2.symm
+              subst this; exact hno (by simp [HasAttr])
+            · obtain ⟨k, info, he, _, hno⟩ := h2
+              simp only [mS, Prod.mk.injEq, YVal.map.injEq] at he
+              obtain ⟨_, rfl⟩ := he
+              exact hno (by simp [HasAttr])
+            · obtain ⟨k, info, he, _, hno⟩ := h3
+              simp only [mH, Prod.mk.injEq, YVal.map.injEq] at he
+              obtain ⟨_, rfl⟩ := he
+              exact hno (by simp [HasAttr])
+            · obtain ⟨k, info, he, hyes, _⟩ := h4
+              simp only [mF, Prod.mk.injEq, YVal.map.injEq] at he
+              obtain ⟨_, rfl⟩ := he
+              exact hyes (by simp [HasAttr])
+            · obtain ⟨k, info, he, _, hno⟩ := h5
+              simp only [mT, Prod.mk.injEq, YVal.map.injEq] at he
+              obtain ⟨_, rfl⟩ := he
+              exact hno (by simp [HasAttr])
+
+/-! wireLength_of_document applied: two nets, every member's centre comes from the `Modules` entry of its name -/
+example : ∃ (n : Netlist Rat) (w : Rat) (css : List (List (Rat × Rat))), LD good = .ok n ∧
+    n.wireLength (fun x => x) = some w ∧ css.length = 2 ∧
+    List.Forall₂ (fun (e : Net Rat) (cs : List (Rat × Rat)) =>
+      List.Forall₂ (fun x c => ∃ info, (YVal.str x, YVal.map info) ∈ [mA, mS, mH, mF, mT] ∧ DocCenter info c) e.members cs ∧
+      2 ≤ cs.length ∧ 0 < e.weight) n.nets css := by
+  obtain ⟨n, hn⟩ := ok_of_isOkB good_ok
+  have := good_wl; rw [hn] at this; simp at this
+  obtain ⟨w, hw⟩ := Option.isSome_iff_exists.mp this
+  obtain ⟨css, hF, _⟩ := wireLength_of_document (fun x => x) (hasModules_doc _ _) hn w hw
+  have hlen : n.nets.length = 2 := by
+    have h := (nets_of_document (hasNets_doc _ _) hn).1
+    rw [← h.length_eq]; rfl
+  exact ⟨n, w, css, hn, hw, by rw [← hF.length_eq, hlen], hF⟩
+
+/-! center_def_no_rects_of_document applied: terminal `T` (last entry, `center: [5, 2]`, no rectangles) keeps (5, 2);
+    soft `A` (first entry, neither) has no centre -/
+example : ∃ (n : Netlist Rat) (a t : NL.Mod Rat), LD good = .ok n ∧ n.modules[0]? = some a ∧ n.modules[4]? = some t ∧
+    a.center = none ∧ a.rects = [] ∧ t.center = some (5, 2) ∧ t.rects = [] := by
+  obtain ⟨n, hn⟩ := ok_of_isOkB good_ok
+  have hF := center_def_no_rects_of_document (hasModules_doc _ _) hn
+  generalize hms : n.modules = ms at hF
+  cases hF with
+  | cons h1 hF => cases hF with
+    | cons h2 hF => cases hF with
+      | cons h3 hF => cases hF with
+        | cons h4 hF => cases hF with
+          | cons h5 hF =>
+            cases hF
+            rename_i a s h f t
+            obtain ⟨ia, hea, ha⟩ := h1
+            obtain ⟨it, het, ht⟩ := h5
+            have hia : ia = [(.str "area", .map [(.str "_", .int 3), (.str "dsp", .float 2)])] := by
+              simp [mA] at hea; exact hea.2.symm
+            have hit : it = [(.str "terminal", .bool true), (.str "center", .seq [.int 5, .int 2])] := by
+              simp [mT] at het; exact het.2.symm
+            subst hia hit
+            obtain ⟨ar, _, ac⟩ := ha (by intro v hv; simp [HasAttr] at hv)
+            obtain ⟨tr, tc, _⟩ := ht (by intro v hv; simp [HasAttr] at hv)
+            obtain ⟨c, hc, htc⟩ := tc (.seq [.int 5, .int 2]) (by simp [HasAttr])
+            obtain ⟨x, y, hxy, rfl⟩ := hc
+            have hx : x = .i 5 ∧ y = .i 2 := by
+              simp at hxy
+              obtain ⟨h1, h2⟩ := hxy
+              cases x <;> cases y <;> simp_all [YVal.ofNum]
+            refine ⟨n, a, t, hn, by rw [hms]; rfl, by rw [hms]; rfl, ac (by intro v hv; simp [HasAttr] at hv), ar, ?_, tr⟩
+            rw [htc, hx.1, hx.2]
+            rfl
 
 
 end examples
